@@ -3787,6 +3787,14 @@ static void handle_oc_property_decl(Chunk *os)
          {
             Chunk *rm_chunk = curr_chunk;
             curr_chunk = curr_chunk->GetNext();
+
+            // a comment stays, and so does the newline that ends a '//' comment
+            if (  rm_chunk->IsComment()
+               || (  rm_chunk->IsNewline()
+                  && rm_chunk->GetPrev()->Is(CT_COMMENT_CPP)))
+            {
+               continue;
+            }
             Chunk::Delete(rm_chunk);
          }
       }
